@@ -397,7 +397,13 @@ def run_property(chk, prop, note=None):
     return chk.finish(
         level="proof" if names else "translation_validation",
         trusted_base=["Python oracles (checks/oracles.py) that turn real traces into violations; they state the property on observables and are not part of any proof"],
-        extra_assumptions=[note] if note else None)
+        extra_assumptions=([note] if note else []) + [
+            "theorems are about Model/Sess.v + Model/Hist.v; the tie to session.go/cache.go is the differential comparison of this run, the regenerated Gen/SessShape.v and Gen/Access.v obligations, and nothing else",
+            "request granularity: whole API calls are atomic in the model (adequate for concurrent requests only under cache_ops_atomic, C13 and C15)",
+            "generated IDs never collide with each other or with a presented value that was not issued (2^-128 per pair)",
+            "net/http cookie handling, encoding/gob|json, time, regexp on well-formed host:port strings, hash/fnv as specified in DESIGN.md 9.13",
+            "properties that do not quantify over store failures or crashes are judged on the fault-free, crash-free prefix of each history",
+        ])
 
 
 def replay_property(chk, prop, path):
